@@ -2,6 +2,8 @@ package main
 
 import (
 	"fmt"
+	"os"
+	"strconv"
 
 	"github.com/openacid/slim/xsimrt"
 )
@@ -174,6 +176,15 @@ type Sim struct {
 
 const fnvPrime = 1099511628211
 
+// traceTask (diagnostics, SLIMSIM_TRACE_TASK): print every yield of that task.
+var traceTask = func() int {
+	if v := os.Getenv("SLIMSIM_TRACE_TASK"); v != "" {
+		n, _ := strconv.Atoi(v)
+		return n
+	}
+	return -1
+}()
+
 func newSim(strat Strategy, replay []Seg, totalSteps int64) *Sim {
 	s := &Sim{
 		strat:        strat,
@@ -210,6 +221,9 @@ func (s *Sim) hook(site int) {
 	s.segs[len(s.segs)-1].N++
 	s.evHash = (s.evHash ^ uint64(t.id+1)<<20 ^ uint64(site)) * fnvPrime
 	t.lastSite = site
+	if traceTask >= 0 && t.id == traceTask {
+		fmt.Fprintf(os.Stderr, "TRACE %s %s\n", s.strat.Kind, siteName(site))
+	}
 	// A task is never unwound at a yield inside a critical section (len(t.held)
 	// > 0): the lock, and what it protects, may live in package-level variables
 	// and outlive the run. It is unwound at its first yield outside.
